@@ -32,12 +32,14 @@ def run(db, rep, tier):
     rep.rule("R2-effects", "reassembled packet is rebuilt from the first fragment and the stream forgotten; unfragmented "
                            "packets and incomplete streams are left alone", 7)
     rep.rule("R3-key", "stream key = (identification, source, destination)", 1)
+    rep.rule("R5-fragment-length", "every IPv4 payload layer is built from the length clamped to the header's total length", 3)
     rep.rule("R4-accounting", "fragment insertion, byte accounting, ordered search and duplicate test go together", 4)
     proc = fn1(db, REASM + "::process")
     r1(db, rep, proc)
     r2(db, rep, proc)
     r3(db, rep)
     r4(db, rep)
+    r5(db, rep)
     rep.explanation = ("Decides the structural clauses of C08 (no datagram from an incomplete set; what the reassembled "
                        "packet is made of; unfragmented packets untouched; key coverage; accounting pairing) by guard "
                        "dominance / must-pass-through rules and one truth table compared with the property text. "
@@ -191,6 +193,64 @@ def r3(db, rep):
         rep.violation("R3-key", "make_key", facts.loc(mk), "stream key does not include %s: fragments of different datagrams share one stream" % miss)
     else:
         rep.ok("R3-key", "make_key", facts.loc(mk), "key built from id(), src_addr(), dst_addr()")
+    # the address part keeps both addresses as separate components (an injective, order-normalised pair)
+    ap = [f for f in db.functions.values() if f["qual"] == REASM + "::make_address_pair" and f.get("body")]
+    if not ap:
+        rep.analysis_broken("IPv4Reassembler::make_address_pair vanished")
+        return
+    f = ap[0]
+    rt = facts.tyi(f, f.get("ret")) or {}
+    pv = [p["var"] for p in f["params"]]
+    rets = [n for n in facts.fn_nodes(f) if n["k"] == "ReturnStmt" and n.get("c")]
+    good = rt.get("k") == "rec" and "pair<" in (rt.get("name") or "") and bool(rets)
+    for r in rets:
+        refs = [x.get("var") for x in facts.walk(r["c"][0]) if x["k"] == "DeclRefExpr" and x.get("var") in pv]
+        arith = [x for x in facts.walk(r["c"][0]) if x["k"] in ("BinaryOperator", "CXXOperatorCallExpr") and x.get("op") in ("^", "+", "|", "&", "-", "*")]
+        if set(refs) != set(pv) or arith:
+            good = False
+    if good:
+        rep.ok("R3-key", "make_address_pair", facts.loc(f), "both addresses kept as the two components of a pair on every return")
+    else:
+        rep.violation("R3-key", "make_address_pair", facts.loc(f),
+                      "the address part of the stream key is not the pair of both addresses (type `%s`): different address pairs can map to the "
+                      "same key and their fragments are mixed into one datagram" % (rt.get("s") or "?"))
+
+
+def r5(db, rep):
+    """fragments are cut to the length their IP header announces: the payload layer of every IPv4 packet is built from the
+    clamped size (link-layer padding behind a short fragment is not fragment data)"""
+    ctor = [f for f in db.functions.values() if f.get("rec") == "Tins::IP" and f.get("kind") == "ctor" and len(f["params"]) == 2
+            and (facts.tyi(f, f["params"][0]["t"]) or {}).get("s") == "const unsigned char *"]
+    if not ctor:
+        rep.analysis_broken("IP(const uint8_t*, uint32_t) vanished")
+        return
+    f = ctor[0]
+    tot = f["params"][1]["var"]
+    # the clamp: total_sz = min(advertised, available)
+    clamp = [n for n in facts.fn_nodes(f) if n["k"] == "BinaryOperator" and n.get("op") == "=" and strip(n["c"][0]).get("var") == tot]
+    sinks = []
+    for n in facts.fn_nodes(f):
+        if n["k"] in ("CXXConstructExpr", "CXXTemporaryObjectExpr") and (n.get("crec") or "") == "Tins::RawPDU" and len(n.get("c", [])) == 2:
+            sinks.append((n, n["c"][1], "RawPDU"))
+        if n["k"] == "CallExpr" and n.get("cname") in ("pdu_from_flag", "allocate") and len(n["c"]) >= 4:
+            args = n["c"][1:]
+            for i, a in enumerate(args[:-1]):
+                if (facts.ty(f, a) or {}).get("k") == "ptr":
+                    sinks.append((n, args[i + 1], n.get("cname")))
+                    break
+    if not clamp or len(sinks) < 3:
+        rep.analysis_broken("IP::IP: clamp of total_sz / inner-layer constructions not recognised (%d, %d)" % (len(clamp), len(sinks)))
+        return
+    g = cfg.FnCFG(f)
+    for i, (n, a, what) in enumerate(sinks):
+        key = "IP::IP:payload-size#%d" % (i + 1)
+        a0 = facts.strip_all(a)
+        if a0["k"] == "DeclRefExpr" and a0.get("var") == tot and g.reached_from_entry_avoiding(g.pos(n), [g.pos(c) for c in clamp]) is None:
+            rep.ok("R5-fragment-length", key, facts.loc(f, n), "%s built from the size clamped to the header's total length" % what)
+        else:
+            rep.violation("R5-fragment-length", key, facts.loc(f, n),
+                          "%s is given `%s`, not the size clamped to the IP total length: trailing link-layer padding becomes part of the "
+                          "fragment and of the reassembled datagram" % (what, facts.expr_str(a)[:50]))
 
 
 def r4(db, rep):
